@@ -379,7 +379,7 @@ def h_positions(ctx, cfg):
 @harness("json.defaults_and_field_order", props=["C07", "C15", "C08"], functions=["code_data._json_data.value_to_json", "code_data.dataclass_hide_default.field_is_default", "code_data (data classes)"],
          configs="any", engine="E2",
          notes="bounded (every data class): an instance built from required fields only serializes to exactly its required keys and loads back to itself; every optional field set to a "
-               "non-default value appears under its own name; the fields of each class, their order and their defaults are the ones the JSON contract was written against")
+               "non-default value appears under its own name")
 def h_defaults(ctx, cfg):
     import dataclasses
     import json
@@ -405,13 +405,6 @@ def h_defaults(ctx, cfg):
     for name, (v, key) in falsy.items():
         got = J.value_to_json(v)
         ctx.prove("non_default_field_is_written[%s]" % name, z3.BoolVal(key in got), detail=repr(got))
-    want_fields = {
-        "CodeData": ["blocks", "filename", "first_line_number", "name", "stacksize", "type", "freevars", "future_annotations", "_nested", "_additional_line", "_additional_args"],
-        "Instruction": ["name", "arg", "_n_args_override", "line_number", "_line_offsets_override"], "Jump": ["target", "relative"], "Name": ["name", "_index_override"],
-        "Varname": ["varname", "_index_override"], "Constant": ["constant", "_index_override"], "Freevar": ["freevar"], "Cellvar": ["cellvar", "_index_override"], "NoArg": ["_arg"],
-        "Args": ["positional_only", "positional_or_keyword", "var_positional", "keyword_only", "var_keyword"], "Function": ["args", "docstring", "type"], "AdditionalLine": ["line", "additional_offsets"]}
-    for cls in (CodeData, Instruction, Jump, Name, Varname, Constant, Freevar, Cellvar, NoArg, Args, Function, AdditionalLine):
-        ctx.prove("fields_and_order[%s]" % cls.__name__, z3.BoolVal([f.name for f in dataclasses.fields(cls)] == want_fields[cls.__name__]), detail=repr([f.name for f in dataclasses.fields(cls)]))
 
 
 def _same_types(a, b):
@@ -441,3 +434,16 @@ def h_surrogates_ascii(ctx, cfg):
                 ctx.prove("written_in_ascii_only[%s]" % where, z3.BoolVal(all(ord(c) < 128 for c in got["string"])), detail="%d: %r" % (i, got["string"]))
                 back = J.constant_value_from_json(got) if hasattr(J, "constant_value_from_json") else None
                 ctx.prove("reads_back_exactly[%s]" % where, z3.BoolVal(back == v and type(back) is str), detail="%r -> %r" % (v, back))
+
+
+@harness("json.data_class_fields_as_the_contracts_were_written", props=["C07", "C15"], functions=["code_data (data classes)"], configs="any", engine="E2", soft=True,
+         notes="the fields of each data class and their order are the ones the sidecar contracts construct values with; a new or moved field makes those contracts stale, it refutes nothing (soft)")
+def h_fields_as_written(ctx, cfg):
+    import dataclasses
+    want_fields = {
+        "CodeData": ["blocks", "filename", "first_line_number", "name", "stacksize", "type", "freevars", "future_annotations", "_nested", "_additional_line", "_additional_args"],
+        "Instruction": ["name", "arg", "_n_args_override", "line_number", "_line_offsets_override"], "Jump": ["target", "relative"], "Name": ["name", "_index_override"],
+        "Varname": ["varname", "_index_override"], "Constant": ["constant", "_index_override"], "Freevar": ["freevar"], "Cellvar": ["cellvar", "_index_override"], "NoArg": ["_arg"],
+        "Args": ["positional_only", "positional_or_keyword", "var_positional", "keyword_only", "var_keyword"], "Function": ["args", "docstring", "type"], "AdditionalLine": ["line", "additional_offsets"]}
+    for cls in (CodeData, Instruction, Jump, Name, Varname, Constant, Freevar, Cellvar, NoArg, Args, Function, AdditionalLine):
+        ctx.prove("fields_and_order[%s]" % cls.__name__, z3.BoolVal([f.name for f in dataclasses.fields(cls)] == want_fields[cls.__name__]), detail=repr([f.name for f in dataclasses.fields(cls)]))
